@@ -181,6 +181,10 @@ OutcomeX(P, S, par, own_, c) ==
          IN [errs |-> IF same = {} THEN {NOTFOUND} ELSE {}, ok |-> same # {}, any |-> FALSE]
     [] c.op = "remove_attribute" ->
          [errs |-> {}, ok |-> TRUE, any |-> FALSE]
+    \* split_text(offset) with offset <= length on text node r; `new` is the pool slot the new node will occupy
+    \* (a node that does not exist before the call).  DOM L1 is silent about a text node without a parent.
+    [] c.op = "split_text" ->
+         [errs |-> {}, ok |-> par[c.r] # None, any |-> par[c.r] = None \/ par[c.new] # None]
 
 Outcome(P, S, c) == OutcomeX(P, S, ParentFn(P, S), OwnerFn(P, S), c)
 
@@ -214,6 +218,9 @@ Apply(P, S, c) ==
     [] c.op = "remove_attribute_node" -> RemoveNamed(P, S, c.r, P.aname[c.a])
     [] c.op = "remove_named_item" -> RemoveNamed(P, S, c.r, c.name)
     [] c.op = "remove_attribute" -> RemoveNamed(P, S, c.r, c.name)
+    [] c.op = "split_text" ->
+         LET p == Parent(P, S, c.r)
+         IN  [S EXCEPT !.kids[p] = InsertAt(S.kids[p], IndexOf(S.kids[p], c.r) + 1, c.new)]
 
 \* the node a successful call returns (None: nothing / unit)
 Returned(P, S, c) ==
@@ -229,6 +236,7 @@ Returned(P, S, c) ==
     [] c.op = "remove_named_item" ->
          LET same == { b \in Range(S.attrs[c.r]) : P.aname[b] = c.name }
          IN IF same = {} THEN None ELSE CHOOSE b \in same : TRUE
+    [] c.op = "split_text" -> c.new
     [] OTHER -> None
 
 \* ---------------------------------------------------------------------------------------------
